@@ -13,6 +13,9 @@ var suitesByProp = map[string][]func(*runner, *rng){
 	"C12": {suiteOrder, suiteMerge},
 	"C09": {suiteAdd},
 	"C14": {suiteForce},
+	"C10": {suiteFragment},
+	"C11": {suiteUnfragment},
+	"C13": {suiteOptimize},
 }
 
 func main() {
